@@ -81,6 +81,9 @@ pub struct Profile {
     /// chance that a mutation is followed at once by a loud get of its key
     /// (pins a wrong value / flags / CAS on the command that caused it)
     pub verify_pct: u32,
+    /// hard cap on any single clock advance in seconds (ring N ticks the real
+    /// 1 Hz SystemTimer through every virtual second)
+    pub advance_cap: u64,
 }
 
 impl Profile {
@@ -104,6 +107,7 @@ impl Profile {
             final_dump: true,
             whole_seconds: true,
             verify_pct: 60,
+            advance_cap: u64::MAX,
         }
     }
 }
@@ -303,6 +307,11 @@ impl<'a> Gen<'a> {
     }
 
     pub fn advance_secs(&mut self) -> u64 {
+        let cap = self.p.advance_cap;
+        self.advance_secs_uncapped().min(cap)
+    }
+
+    fn advance_secs_uncapped(&mut self) -> u64 {
         let r = self.rng.below(10);
         match r {
             0..=2 => self.rng.range(0, 3),
